@@ -9,12 +9,15 @@ RULE = ("cases = (dataset class D1-D7/D12 x scheme class S1-S7 x candidate kind)
         "candidate has >= 2 elements and >= 3 distinct (placement, status) cells occur with a non-zero penalty; "
         "distinct = digest of (dataset, scheme, candidate)")
 ASSUMPTIONS = ["reference model vf/ref.py (self-checked each run)", "dyadic penalties: float sums are exact",
-               "sizes n <= 40, m <= 12"]
+               "sizes n <= 40, m <= 12 against the Fraction model; 63-1025 elements (3 % of the cases) against the vectorised "
+               "reference vf/refnp.py, itself cross-checked against the Fraction model at the start of every shard"]
 SUMMARY_KEYS = ["contract:get_kemeny_score", "refusals_expected", "cells_min"]
 CELLS = [("B", s) for s in range(6)] + [("T", s) for s in range(6)]
 
 
 def setup(ctx):
+    from vf import refnp
+    refnp.selftest()
     common.install_kemeny_contract()
 
 
@@ -32,6 +35,13 @@ def plan(tier, seed):
 
 
 def gen_case(rng, ctx):
+    if rng.random() < 0.03:
+        # sizes at which implementations switch strategy (64 .. 1025 elements): structured rankings and candidates
+        n = rng.choice(gen.THRESHOLD_SIZES)
+        ds, base = gen.large_dataset(rng, n)
+        scls, sch = gen.scheme(rng, "S1 S1 S2 S3 S15")
+        kind, cand = gen.large_candidate(rng, base)
+        return {"ds": ds, "scheme": sch, "cand": cand, "kind": "large-" + kind, "dcls": "large", "scls": scls, "n": n}
     big = rng.random() < 0.06
     cls, ds = gen.dataset(rng, classes="D1 D2 D3 D3 D4 D5 D6 D7 D7 D3 D21", nmax=30 if big else 9, mmax=12 if big else 7)
     ds = libx.normalise_raw(ds)
@@ -40,7 +50,40 @@ def gen_case(rng, ctx):
     return {"ds": ds, "scheme": sch, "cand": cand, "kind": kind, "dcls": cls, "scls": scls}
 
 
+def check_large(case, ctx):
+    """64 .. 1025 elements: the score against the vectorised reference (vf/refnp.py), directly and on demand"""
+    from vf import refnp
+    ds, sch, cand = case["ds"], case["scheme"], case["cand"]
+    slim = {k: case[k] for k in ("scheme", "kind", "n")} | {"ds": ds, "cand": cand}
+    common.set_case(ctx, slim)
+    dataset = libx.mk_dataset(ds)
+    scheme = libx.mk_scheme(sch)
+    ranking = libx.mk_ranking(cand)
+    ctx.count("class:large")
+    ctx.count("cand:" + case["kind"])
+    expected = refnp.kemeny(cand, ds, sch)
+    st, val = call(ck.KemenyComputingFactory(scheme).get_kemeny_score, ranking, dataset)
+    if st == "exc":
+        ctx.violation("C01/scoring-raises", f"scoring a complete candidate over {case['n']} elements raised " + exc_desc(val),
+                      slim, observed=type(val).__name__, expected=expected)
+        return
+    ctx.count("large_candidates_scored")
+    if len(cand) < case["n"]:
+        ctx.count("large_candidates_with_ties")
+    if not (isinstance(val, (int, float)) or hasattr(val, "dtype")) or float(val) != expected:
+        ctx.violation("C01/score-differs-from-definition:large", f"{case['n']} elements, candidate kind {case['kind']}: direct "
+                      "call differs from the definition", slim, observed=val, expected=expected)
+        return
+    st2, val2 = call(lambda: ck.Consensus([ranking], dataset=dataset, scoring_scheme=scheme).kemeny_score)
+    if st2 == "exc" or float(val2) != expected:
+        ctx.violation("C01/consensus-on-demand-score-differs", "Consensus.kemeny_score (computed on demand) differs", slim,
+                      observed=val2 if st2 == "ok" else exc_desc(val2), expected=expected)
+    ctx.nontrivial({"n": case["n"], "kind": case["kind"], "scheme": sch, "m": len(ds), "d": gen.digest(ds)})
+
+
 def check_case(case, ctx):
+    if case.get("dcls") == "large":
+        return check_large(case, ctx)
     ds, sch, cand = case["ds"], case["scheme"], case["cand"]
     common.set_case(ctx, case)
     dataset = libx.mk_dataset(ds)
@@ -144,6 +187,11 @@ def reach(counters, tier, info):
     v = counters.get("scored_again_after_in_place_removal", 0)
     out.append({"name": "candidates scored by the same factory after an in-place removal", "observed": v, "required": 300,
                 "ok": v >= 300 or tier != "quick" and v >= 300})
+    v = counters.get("large_candidates_scored", 0)
+    out.append({"name": "candidates over 63-1025 elements scored (vectorised reference)", "observed": v, "required": 40,
+                "ok": v >= 40})
+    v = counters.get("large_candidates_with_ties", 0)
+    out.append({"name": "... of which with ties", "observed": v, "required": 15, "ok": v >= 15})
     v = counters.get("refusals_observed", 0)
     out.append({"name": "refusals of incomplete candidates observed", "observed": v, "required": 20, "ok": v >= 20})
     return out
